@@ -188,6 +188,14 @@ def step (line : String) : String :=
       let show_ : Cli.Decision → String
         | .usageError => "usage-error" | .accept => "accept" | .internalError => "internal-error"
       (Json.mkObj [("ok", Json.str (show_ (Cli.syncDecide x))), ("old", Json.str (show_ (Cli.syncDecideOld x)))]).compress
+    | .ok "conform" =>
+      let b (k : String) := (j.getObjValAs? Bool k).toOption.getD false
+      let o : Conform.Obs := { fileExists := b "exists", found := b "found", cmpEq := b "cmp_eq",
+                               replaced := b "replaced", sameProgram := b "same_program" }
+      let show_ : Conform.Action → String
+        | .create => "create" | .append => "append" | .rewrite => "rewrite" | .none => "none"
+      let d := Conform.decide o
+      (Json.mkObj [("ok", Json.mkObj [("action", Json.str (show_ d.1)), ("report", Json.bool d.2)])]).compress
     | .ok "cli_other" =>
       let b (k : String) := (j.getObjValAs? Bool k).toOption.getD false
       let sp := match Cli.syncPropsDecide (b "input_exists") (b "output_exists") with
